@@ -14,7 +14,9 @@ CONFIG = dict(
           "(the resampling operator with 6 quick / 48 thorough seeds each); (2) seeded populations of 1..3 individuals of "
           "dimension 1..4 whose coordinates are all of one kind (bound / grid / random up to 1e3 widths away / inside); (2b) the same "
           "on problems whose range DIFFERS per dimension ([0,1)x[10,20)x[-5,-4), ...), every coordinate judged against its own range; (3) huge "
-          "finite coordinates (1e17, -1e17, 1e300, -f64::MAX). Every case runs in a worker process under a 2 s watchdog; a case "
+          "finite coordinates (+-1e17, +-1e300, +-f64::MAX, 1e22, 2^53+1, ...) and the neighbourhood of Mirror's fold (the thresholds a-d, b+d and "
+          "their floating-point neighbours; whole periods 2kd from either bound, k up to 1e6, and their neighbours; remainders near 0, d, 2d), "
+          "alone and inside populations over per-dimension different ranges — ordinary cases: every operator must return, in bounds. Every case runs in a worker process under a 2 s watchdog; a case "
           "that does not answer is re-run once in a fresh worker before it counts as `timeout`. Initialisers (Empty, RandomSpread, "
           "RandomPermutation, RandomBitstring) for sizes 0..6, dimensions 0..6, the four domains and per-dimension different ranges, probabilities {0,0.25,0.5,1}, "
           "stack heights 0..2 and 2 quick / 6 thorough seeds. A case is non-trivial if it is a boundary case with a coordinate "
@@ -22,7 +24,9 @@ CONFIG = dict(
     nontrivial=lambda inp: (inp.startswith("(bnd") and "inside" not in inp) or
                            (inp.startswith("(init") and re.match(r"\(init \w+ [1-9]\d* [1-9]", inp) is not None),
     trusted_base=[
-        "f64 arithmetic of the model = Lean's native Float (IEEE binary64 +,-,*,/,floor); theorems are in exact arithmetic over an ordered field",
+        "f64 arithmetic of the model = Lean's native Float (IEEE binary64 +,-,*,/,floor); f64::rem_euclid (fmod) is computed exactly on the decoded "
+        "doubles with integer arithmetic (Model/Boundary.lean f64RemEuclid; every folded Mirror case compares it with the real one); "
+        "theorems are in exact arithmetic over an ordered field",
         "rand's gen_range / shuffle / Bernoulli / Normal samplers are not modelled: their results are explicit witnesses "
         "(RandomSpread: gen_range's contract a <= x < b is checked on every generated coordinate); the resampling operator's "
         "absolute standard-normal deviates come from a twin generator with the same seed (the model scales them by (b-a)/3 per coordinate)",
@@ -33,16 +37,20 @@ CONFIG = dict(
 )
 CONFIG.update(
     level_text=("Lean 4 theorems in exact arithmetic over an arbitrary linearly ordered field (FloorRing for Toroidal / the iteration "
-                "bound), domain a < b, closed interval: Saturation, Toroidal (the code's formula), Mirror and the resampling "
-                "operator return values in [a,b], fix every coordinate already inside and are idempotent; Mirror's loop body "
-                "reduces the distance to [a,b] by exactly the width, hence the loop exits after at most ceil(|x-a|/(b-a)) passes; "
+                "bound), domain a < b, closed interval: Saturation, Toroidal (the code's formula), Mirror (the code's fold by rem_euclid, then the reflection loop) and the resampling "
+                "operator return values in [a,b], fix every coordinate already inside and are idempotent; Mirror terminates for EVERY "
+                "coordinate after at most one pass of its loop (mirror_terminates, mirror_returns), computes the triangle wave of period 2(b-a) "
+                "(mirror_closed_form), which is exactly what step-by-step reflection returns (mirror_agrees_with_stepwise; that needs "
+                "ceil(|x-a|/(b-a)) passes, mirror_stepwise_terminates), and within one width of the domain the fold is not taken at all "
+                "(mirror_near_is_stepwise); "
                 "the resampling loop exits on any deviate <= b-a; every operator keeps the dimension; initialisers push exactly one "
                 "population of n unevaluated individuals of the problem's dimension, in-domain given gen_range's contract, "
                 "permutations for every legal shuffle witness. Tied to /repo by running the real components on the grid under a "
                 "watchdog and diffing against the compiled Float instance of the same model (K), and evaluating in-bounds / "
                 "inside-unchanged / idempotent / terminated on the implementation's output (O)."),
-    level_note=("partial: floating-point absorption and the O(|x|/(b-a)) running time of Mirror are outside the exact-arithmetic "
-                "theorem (mirror_terminates holds in every ordered field); they are exhibited by the watchdog as the recorded "
-                "finding Mirror@huge [timeout]. Trusted: Lean kernel, native Float = f64, harness + driver printing; samplers of "
+    level_note=("Rounding is outside the exact-arithmetic theorems (on floats rem_euclid may return 2d itself and a reflection may land one ulp "
+                "outside, so the real loop may take two passes instead of one; in-bounds is checked with 4 ulp slack); termination on floats is "
+                "established case by case under the watchdog, including huge coordinates (the former finding Mirror@huge was repaired in /repo "
+                "664f681; its reversal is seeded/C14-mirror-fix-reverted). Trusted: Lean kernel, native Float = f64, harness + driver printing; samplers of "
                 "`rand` are witnesses, not modelled."),
 )
